@@ -93,3 +93,140 @@ def splice(prog, f, stack=(), depth=0):
         inlined.append(k)
         inlined.extend(g.get("inlined", []))
     return f
+
+
+# ------------------------------------------------------------------------------------------------------------------
+# Deep view: closures called directly and the Option / Result combinators that take a closure are expanded in place, so that
+# a boolean decider reads as one control-flow graph however it is spelled (`x.is_some_and(|v| ..)`, `if let Some(v) = x && ..`,
+# a local `let contains = |asn| ..; contains(a) || contains(b)`).  Used by analysis/predicates.py only.
+import re as _re
+
+_COMB = _re.compile(r"(?:option::Option::<T>::(is_some_and|is_none_or|map_or)|result::Result::<T, E>::(is_ok_and|is_err_and))$")
+_FNCALL = _re.compile(r"ops::(?:function::)?(Fn|FnMut|FnOnce)::call(_mut|_once)?$")
+DEEP_MAX = 4
+
+
+def _closure_of_local(f, l, hops=4):
+    for b in f["blocks"]:
+        for s in b["s"]:
+            if "rv" in s and s["p"]["l"] == l and not s["p"].get("p"):
+                rv = s["rv"]
+                if rv["r"] == "agg" and rv.get("k") == "closure":
+                    return rv.get("def")
+                if hops > 0 and rv["r"] in ("ref", "use"):
+                    q = rv.get("p") if rv["r"] == "ref" else (rv["o"].get("c") or rv["o"].get("m"))
+                    if q is not None and not q.get("p"):
+                        return _closure_of_local(f, q["l"], hops - 1)
+    return None
+
+
+def _op_local(o):
+    q = o.get("c") or o.get("m")
+    return q["l"] if (q is not None and not q.get("p")) else None
+
+
+def deep_splice(prog, f, depth=0, stack=()):
+    if depth >= DEEP_MAX:
+        return f
+    todo = []
+    for bi, b in enumerate(f["blocks"]):
+        t = b["t"]
+        if b["cl"] or t["t"] != "call" or t.get("to") is None:
+            continue
+        nm = t["f"].get("name") or ""
+        m = _COMB.search(nm)
+        if m:
+            todo.append((bi, m.group(1) or m.group(2)))
+        elif _FNCALL.search(nm):
+            todo.append((bi, "call"))
+    if not todo:
+        return f
+    f = copy.deepcopy(f)
+    blocks, locs, dbg = f["blocks"], f["locals"], f["dbg"]
+
+    def new_local(ty):
+        locs.append(ty)
+        return len(locs) - 1
+
+    def add_block(stmts, term):
+        blocks.append({"cl": False, "s": stmts, "t": term})
+        return len(blocks) - 1
+
+    def inline_closure(ck, env_op, arg_places, dest, cont, ln):
+        """Append the closure body; returns the entry block index (or None)."""
+        if ck is None or ck not in prog.ix or ck in stack:
+            return None
+        g = deep_splice(prog, prog.fn(ck), depth + 1, stack + (ck,))
+        if g.get("cor") or len(g["blocks"]) > MAX_BLOCKS or g["argc"] != 1 + len(arg_places):
+            return None
+        loff, boff = len(locs), len(blocks) + 1       # +1: the argument block comes first
+        locs.extend(g["locals"])
+        for d in g.get("dbg", []):
+            d2 = copy.deepcopy(d)
+            _renum(d2, loff, 0)
+            dbg.append(d2)
+        stm = [{"p": {"l": loff + 1}, "rv": {"r": "use", "o": env_op}, "ln": ln, "x": False}]
+        for i, ap in enumerate(arg_places):
+            stm.append({"p": {"l": loff + 2 + i}, "rv": {"r": "use", "o": {"m": ap}}, "ln": ln, "x": False})
+        entry = add_block(stm, {"t": "goto", "to": boff})
+        assert entry == boff - 1
+        for gb in g["blocks"]:
+            nb = copy.deepcopy(gb)
+            _renum(nb, loff, boff)
+            tt = nb["t"]
+            if tt["t"] == "ret":
+                nb["s"].append({"p": copy.deepcopy(dest), "rv": {"r": "use", "o": {"m": {"l": loff}}}, "ln": ln, "x": False})
+                nb["t"] = {"t": "goto", "to": cont}
+            blocks.append(nb)
+        return entry
+
+    opt = next((k for k, a in prog.adts.items() if a.get("name") == "std::option::Option"), "core::option::Option")
+    res = next((k for k, a in prog.adts.items() if a.get("name") == "std::result::Result"), "core::result::Result")
+    for bi, kind in todo:
+        t = blocks[bi]["t"]
+        ln = t.get("ln", 0)
+        dest, cont, args = t["dest"], t["to"], t["args"]
+        if kind == "call":
+            ck = t["f"].get("rkey") if (t["f"].get("rkey") in prog.ix and prog.ix[t["f"]["rkey"]]["kind"] == "closure") else None
+            if ck is None:
+                l0 = _op_local(args[0])
+                ck = _closure_of_local(f, l0) if l0 is not None else None
+            tl = _op_local(args[1]) if len(args) > 1 else None
+            if ck is None or ck not in prog.ix or tl is None:
+                continue
+            n_args = prog.fn(ck)["argc"] - 1
+            arg_places = [{"l": tl, "p": [{"f": i, "n": ""}]} for i in range(n_args)]
+            entry = inline_closure(ck, args[0], arg_places, dest, cont, ln)
+            if entry is None:
+                continue
+            blocks[bi]["t"] = {"t": "goto", "to": entry, "inl": ck, "ln": ln}
+            continue
+        # combinators
+        ol = _op_local(args[0])
+        fl = _op_local(args[-1])
+        ck = _closure_of_local(f, fl) if fl is not None else None
+        if ol is None or ck is None:
+            continue
+        is_opt = kind in ("is_some_and", "is_none_or", "map_or")
+        adt = opt if is_opt else res
+        # variant holding the payload handed to the closure, and the constant result of the other variant
+        if kind in ("is_some_and", "is_none_or", "map_or"):
+            pay_variant, pay_idx = "Some", 1
+            other = {"is_some_and": {"k": {"ty": "bool", "v": 0}}, "is_none_or": {"k": {"ty": "bool", "v": 1}}, "map_or": args[1] if len(args) == 3 else None}[kind]
+        elif kind == "is_ok_and":
+            pay_variant, pay_idx, other = "Ok", 0, {"k": {"ty": "bool", "v": 0}}
+        else:
+            pay_variant, pay_idx, other = "Err", 1, {"k": {"ty": "bool", "v": 0}}
+        if other is None:
+            continue
+        pay_place = {"l": ol, "p": [{"d": pay_variant, "vi": pay_idx}, {"f": 0, "n": "0"}]}
+        entry = inline_closure(ck, args[-1], [pay_place], dest, cont, ln)
+        if entry is None:
+            continue
+        b_other = add_block([{"p": copy.deepcopy(dest), "rv": {"r": "use", "o": other}, "ln": ln, "x": False}], {"t": "goto", "to": cont})
+        b_unr = add_block([], {"t": "unreachable"})
+        d = new_local("isize")
+        blocks[bi]["s"].append({"p": {"l": d}, "rv": {"r": "discr", "p": {"l": ol}, "adt": adt}, "ln": ln, "x": False})
+        cases = [[pay_idx, entry], [1 - pay_idx, b_other]]
+        blocks[bi]["t"] = {"t": "switch", "o": {"m": {"l": d}}, "cases": sorted(cases), "else": b_unr, "ty": "isize", "ln": ln, "x": False, "inl": kind}
+    return f
